@@ -644,7 +644,8 @@ class ObjectBase(EntityContainer):
         if not self._property_groups:
             return
 
-        for property_group in self._property_groups:
+        # iterate over a copy: an emptied group removes itself from the list
+        for property_group in list(self._property_groups):
             property_group.remove_properties(data)
 
     @property
